@@ -598,6 +598,24 @@ def operators_plain(modules):
     return bad
 
 
+_REF_IDENTS = {}
+
+
+def _ref_idents(rel, table):
+    """identifiers mentioned by the reference functions of a file"""
+    if rel not in _REF_IDENTS:
+        out = set()
+        for key, ent in table.items():
+            if key.startswith(rel + '::'):
+                for x in ast.walk(ast.parse(ent[1])):
+                    if isinstance(x, ast.Name):
+                        out.add(x.id)
+                    elif isinstance(x, ast.Attribute):
+                        out.add(x.attr)
+        _REF_IDENTS[rel] = out
+    return _REF_IDENTS[rel]
+
+
 def _scope(rel, tree, cls, table):
     from . import equiv
 
@@ -606,7 +624,8 @@ def _scope(rel, tree, cls, table):
             return False
         k = f'{rel}::{cn or ""}::{name}::' + ('m0' if cn else 'f')
         return k not in table
-    return equiv.Scope(tree, cls, is_new)
+    return equiv.Scope(tree, cls, is_new,
+                       _ref_idents(rel, table) if table is not None else None)
 
 
 def build_fn_table(modules):
